@@ -136,12 +136,20 @@ def wfp (n me : Nat) : List Instr → Option Nat → Bool → Option (List Nat) 
       decide (h = some key.shard) && f && d.isNone && sn.isNone && decide (key.peer = me) && wfp n me r h f d sn
   | .commitRem key :: r, h, f, d, sn =>
       decide (h = some key.shard) && f && d.isNone && sn.isNone && decide (key.peer = me) && wfp n me r h f d sn
-  | .commitSr k :: r, h, f, d, sn => decide (h = some k) && f && d.isNone && sn.isNone && wfp n me r h f d sn
+  | .commitSr k _ :: r, h, f, d, sn => decide (h = some k) && f && sn.isNone && wfp n me r h f d sn
   | .commitDrop k :: r, h, f, d, sn => decide (h = some k) && sn.isNone && wfp n me r h f (some (k :: d.getD [])) sn
+  -- the purge class is outside the proved fragment (the property fails there: finding S28b)
+  | .commitStale _ :: _, _, _, _, _ => false
+  | .commitDropQuiet _ :: _, _, _, _, _ => false
+  | .commitPurge _ :: _, _, _, _, _ => false
+  | .commitLlgr _ :: _, _, _, _, _ => false
+  | .commitLpurge _ :: _, _, _, _, _ => false
+  | .sendDownGr :: _, _, _, _, _ => false
+  | .setEst _ :: r, h, f, d, sn => wfp n me r h f d sn
   | .sendUp :: r, h, f, d, sn => h.isNone && d.isNone && wfp n me r h f d sn
   | .sendDown :: r, h, f, d, sn => h.isNone && sn.isNone && cover n (d.getD []) && wfp n me r h f none sn
   | .setPol _ :: r, h, f, d, sn => wfp n me r h f d sn
-  | .register w :: r, h, f, d, sn =>
+  | .register w _ :: r, h, f, d, sn =>
       h.isNone && d.isNone && sn.isNone && wfp n me r h f d (if w then some [] else none)
   | .snap k :: r, h, f, d, sn =>
       decide (h = some k) && !f && d.isNone &&
@@ -175,6 +183,10 @@ structure Inv (st : St) : Prop where
   recs : ∀ i, ∀ r ∈ (st.threads i).mysubs, r.want = true →
           r.sid ∈ st.complete ∨ ∃ l, (st.threads i).snapping = some (r.sid, l)
   tshard : ∀ s m key, touched m key (st.queues s) → key.shard < st.n
+  /-- no `Source` is marked stale (the purge class is outside the proved fragment) -/
+  nostale : st.staleGens = []
+  /-- a completed snapshot has its EndOfSnapshot in the queue -/
+  eosI : ∀ s ∈ st.complete, Ev.eos ∈ st.queues s
   dropped : ∀ key, droppedShard st key → st.rib key = none
   /-- a lock holder whose subscriber list (loaded under the lock) lacks a live subscriber: that
       subscriber has neither snapshotted the shard nor received any event of it -/
@@ -191,6 +203,11 @@ structure Inv (st : St) : Prop where
 
 @[simp] theorem updT_self (f : Nat → Thread) (i t) : updT f i t i = t := by simp [updT]
 theorem updT_ne (f : Nat → Thread) {i j} (t) (h : j ≠ i) : updT f i t j = f j := by simp [updT, h]
+
+theorem send_mono {q : Nat → List Ev} {subs evs s e} (h : e ∈ q s) : e ∈ send q subs evs s := by
+  unfold send; split
+  · exact List.mem_append_left _ h
+  · exact h
 
 theorem me_lt {st me i rest} (hI : Inv st) (hp : (st.threads me).pgm = i :: rest) : me < st.nthreads := by
   apply Nat.lt_of_not_le
@@ -210,7 +227,7 @@ theorem lockFree_spec {st : St} {k me : Nat} (hI : Inv st) (h : lockFree st k me
 
 /-- A step of thread `me` that touches no shared data except the policy, and in the thread only
     pgm / subs / pol / held / fresh / dirty / count / rets. -/
-theorem inv_core {st : St} {me : Nat} {t' : Thread} {p : Pol} (hI : Inv st)
+theorem inv_core {st : St} {me : Nat} {t' : Thread} {p : Pol} {E : List Nat} (hI : Inv st)
     (hme : me < st.nthreads)
     (hd : t'.drop = (st.threads me).drop) (hsn : t'.snapping = (st.threads me).snapping)
     (hms : t'.mysubs = (st.threads me).mysubs)
@@ -219,7 +236,7 @@ theorem inv_core {st : St} {me : Nat} {t' : Thread} {p : Pol} (hI : Inv st)
     (hsubs : ∀ s ∈ t'.subs, s < st.nextSub)
     (hblind : ∀ s k, t'.held = some k → t'.fresh = true → s ∈ st.subscribers → s ∉ t'.subs →
         k ∉ st.done s ∧ ∀ m key, key.shard = k → ¬ touched m key (st.queues s)) :
-    Inv { st with policy := p, threads := updT st.threads me t' } := by
+    Inv { st with policy := p, established := E, threads := updT st.threads me t' } := by
   have hdrop : ∀ i, (updT st.threads me t' i).drop = (st.threads i).drop := by
     intro i; by_cases h : i = me
     · subst h; simp [hd]
@@ -232,7 +249,7 @@ theorem inv_core {st : St} {me : Nat} {t' : Thread} {p : Pol} (hI : Inv st)
     intro i; by_cases h : i = me
     · subst h; simp [hms]
     · simp [updT_ne _ _ h]
-  have hds : ∀ key, droppedShard { st with policy := p, threads := updT st.threads me t' } key ↔ droppedShard st key := by
+  have hds : ∀ key, droppedShard { st with policy := p, established := E, threads := updT st.threads me t' } key ↔ droppedShard st key := by
     intro key; simp [droppedShard, hdrop]
   constructor <;> dsimp only
   · intro i hi
@@ -270,6 +287,8 @@ theorem inv_core {st : St} {me : Nat} {t' : Thread} {p : Pol} (hI : Inv st)
     rw [hmys] at hr; rw [hsnap]
     exact hI.recs i r hr hw
   · exact hI.tshard
+  · exact hI.nostale
+  · exact hI.eosI
   · intro key hdk
     exact hI.dropped key ((hds key).mp hdk)
   · intro i s k hh hf hs hns
@@ -298,6 +317,7 @@ theorem inv_data {st : St} {me : Nat} {t' : Thread} (hI : Inv st)
     (hd : t'.drop = (st.threads me).drop) (hsn : t'.snapping = (st.threads me).snapping)
     (hms : t'.mysubs = (st.threads me).mysubs)
     (hwf : TWF st.n me t')
+    (hmono : ∀ s e, e ∈ st.queues s → e ∈ Q s)
     (hsup : ∀ key e, R key = some e → key ∈ K ∧ key.shard < st.n)
     (hidsQ : ∀ s, st.nextSub ≤ s → Q s = [])
     (htshard : ∀ s m key, touched m key (Q s) → key.shard < st.n)
@@ -345,6 +365,8 @@ theorem inv_data {st : St} {me : Nat} {t' : Thread} (hI : Inv st)
     rw [(hth i).2.2.2.2.2] at hr; rw [(hth i).2.2.2.2.1]
     exact hI.recs i r hr hw
   · exact htshard
+  · exact hI.nostale
+  · intro s hs; exact hmono s _ (hI.eosI s hs)
   · intro key hdk
     exact hdropped key ((hds key).mp hdk)
   · intro i s k hh' hf' hs hns
@@ -396,16 +418,16 @@ theorem step_commitIns {st st' : St} {me key a rest} (hI : Inv st)
   split at hs
   · -- prefix limit exceeded: nothing happens
     injection hs with hs; subst hs
-    exact inv_core (p := st.policy) hI hme rfl rfl rfl
+    exact inv_core (p := st.policy) (E := st.established) hI hme rfl rfl rfl
       (by unfold TWF; simpa [hheld, hfresh, hdrop] using hrest)
       (fun k hk => ⟨hI.heldlt me k hk, fun j hj hh => hj (hI.excl j me k hh hk)⟩)
       (hI.idsT me)
       (fun s k hk hf hs hns => hI.blind me s k hk hf hs hns)
   · injection hs with hs; subst hs
-    have hR : ∀ k', updRib st.rib key (some ⟨a, applyImport (st.threads me).pol a⟩) k' =
-        if k' = key then some ⟨a, applyImport (st.threads me).pol a⟩ else st.rib k' := fun k' => rfl
+    have hR : ∀ k', updRib st.rib key (some ⟨encVal a, applyImport (st.threads me).pol (encVal a), (st.threads me).gen⟩) k' =
+        if k' = key then some ⟨encVal a, applyImport (st.threads me).pol (encVal a), (st.threads me).gen⟩ else st.rib k' := fun k' => rfl
     refine inv_data hI _ _ _ hme rfl rfl rfl rfl rfl rfl
-      (by unfold TWF; simpa [hheld, hfresh, hdrop] using hrest) ?_ ?_ ?_ ?_ ?_ ?_
+      (by unfold TWF; simpa [hheld, hfresh, hdrop] using hrest) (fun s e h => send_mono h) ?_ ?_ ?_ ?_ ?_ ?_
     · -- sup
       intro k' e he
       rw [hR] at he
@@ -446,14 +468,14 @@ theorem step_commitIns {st st' : St} {me key a rest} (hI : Inv st)
           left
           rw [view_append, view_insEvs]
           cases m <;> simp [ribVr, hR]
-        · have hnt : ¬ touched m k' [Ev.pre key (some a), Ev.post key (applyImport (st.threads me).pol a)] :=
+        · have hnt : ¬ touched m k' [Ev.pre key (some (encVal a)), Ev.post key (applyImport (st.threads me).pol (encVal a))] :=
             fun h => hk (touched_insEvs h)
           rw [view_append, foldl_untouched m k' _ _ hnt (by simp)]
           have hpre' : touched m k' (st.queues s) ∨ k'.shard ∈ st.done s := by
             rcases hpre with h | h
             · rw [touched_append] at h; exact h.elim Or.inl (fun h => absurd h hnt)
             · exact Or.inr h
-          have : ribVr m (updRib st.rib key (some ⟨a, applyImport (st.threads me).pol a⟩)) k' = ribV m st k' := by
+          have : ribVr m (updRib st.rib key (some ⟨encVal a, applyImport (st.threads me).pol (encVal a), (st.threads me).gen⟩)) k' = ribV m st k' := by
             rw [ribV_eq]; simp [ribVr, hR, hk]
           rw [this]; exact hI.viewI s hs m k' hpre'
       · rw [send_out hin] at hpre ⊢
@@ -463,7 +485,7 @@ theorem step_commitIns {st st' : St} {me key a rest} (hI : Inv st)
           rcases hpre with h | h
           · exact absurd h (hb.2 m _ rfl)
           · exact absurd h hb.1
-        · have : ribVr m (updRib st.rib key (some ⟨a, applyImport (st.threads me).pol a⟩)) k' = ribV m st k' := by
+        · have : ribVr m (updRib st.rib key (some ⟨encVal a, applyImport (st.threads me).pol (encVal a), (st.threads me).gen⟩)) k' = ribV m st k' := by
             rw [ribV_eq]; simp [ribVr, hR, hk]
           rw [this]; exact hI.viewI s hs m k' hpre
 
@@ -490,7 +512,7 @@ theorem inv_rem {st : St} {me key} {t' : Thread} {R : Key → Option Entry} (hI 
     (hR : ∀ k', R k' = if k' = key then none else st.rib k') :
     Inv { st with rib := R, queues := send st.queues (st.threads me).subs [Ev.pre key none, Ev.post key none],
                   threads := updT st.threads me t' } := by
-  refine inv_data hI _ _ _ hme hsu hh hf hd hsn hms hwf ?_ ?_ ?_ ?_ ?_ ?_
+  refine inv_data hI _ _ _ hme hsu hh hf hd hsn hms hwf (fun s e h => send_mono h) ?_ ?_ ?_ ?_ ?_ ?_
   · intro k' e he
     rw [hR] at he
     by_cases hk : k' = key
@@ -585,22 +607,37 @@ theorem mem_peerKeysIn {st : St} {p k key} :
     key ∈ peerKeysIn st p k ↔ key ∈ st.keys ∧ key.peer = p ∧ key.shard = k ∧ (st.rib key).isSome = true := by
   simp [peerKeysIn, and_assoc]
 
-theorem step_commitSr {st st' : St} {me k rest} (hI : Inv st)
-    (hp : (st.threads me).pgm = .commitSr k :: rest) (hs : step me st = some st') : Inv st' := by
+theorem isStale_false {st : St} (h : st.staleGens = []) (p : Nat) (e : Entry) : isStale st p e = false := by
+  simp [isStale, h]
+
+theorem mem_freshKeysIn {st : St} (h : st.staleGens = []) {p k key} :
+    key ∈ freshKeysIn st p k ↔ key ∈ st.keys ∧ key.peer = p ∧ key.shard = k ∧ (st.rib key).isSome = true := by
+  unfold freshKeysIn
+  rw [List.mem_filter, mem_peerKeysIn]
+  constructor
+  · exact fun h => h.1
+  · intro hk
+    refine ⟨hk, ?_⟩
+    obtain ⟨e, he⟩ := Option.isSome_iff_exists.mp hk.2.2.2
+    simp [he, isStale_false h]
+
+theorem step_commitSr {st st' : St} {me k p rest} (hI : Inv st)
+    (hp : (st.threads me).pgm = .commitSr k p :: rest) (hs : step me st = some st') : Inv st' := by
   have hme := me_lt hI hp
   have hw := hI.wf me
   unfold TWF at hw; rw [hp] at hw
   simp only [wfp, Bool.and_eq_true, decide_eq_true_eq, Option.isNone_iff_eq_none] at hw
-  obtain ⟨⟨⟨⟨hheld, hfresh⟩, hdrop⟩, hsnap⟩, hrest⟩ := hw
+  obtain ⟨⟨⟨hheld, hfresh⟩, hsnap⟩, hrest⟩ := hw
+  have hns := hI.nostale
   simp only [step, hp] at hs
   injection hs with hs; subst hs
   let pol := (st.threads me).pol
   let np : Key → Option Nat := fun key => (st.rib key).bind fun e => applyImport pol e.pre
-  have hevs : (peerKeysIn st me k).map (fun key => Ev.post key ((st.rib key).bind fun e => applyImport (st.threads me).pol e.pre))
-      = postBatch (peerKeysIn st me k) np := rfl
+  have hevs : (freshKeysIn st p k).map (fun key => Ev.post key ((st.rib key).bind fun e => applyImport (st.threads me).pol e.pre))
+      = postBatch (freshKeysIn st p k) np := rfl
   rw [hevs]
   refine inv_data hI _ _ _ hme rfl rfl rfl rfl rfl rfl
-    (by unfold TWF; simpa [hheld, hfresh, hdrop] using hrest) ?_ ?_ ?_ ?_ ?_ ?_
+    (by unfold TWF; simpa [hheld, hfresh] using hrest) (fun s e h => send_mono h) ?_ ?_ ?_ ?_ ?_ ?_
   · intro k' e he
     split at he
     · cases h : st.rib k' with
@@ -613,60 +650,61 @@ theorem step_commitSr {st st' : St} {me k rest} (hI : Inv st)
   · intro s m k' htch
     rcases touched_send htch with h | ⟨_, h⟩
     · exact hI.tshard s m k' h
-    · have := (mem_peerKeysIn.mp (touched_postBatch.mp h).2).2.2.1
+    · have := ((mem_freshKeysIn hns).mp (touched_postBatch.mp h).2).2.2.1
       rw [this]; exact hI.heldlt me _ hheld
   · intro k' hdk
     split
     · rw [hI.dropped k' hdk]; rfl
     · exact hI.dropped k' hdk
-  · intro i s k0 hh hf hs hns m k' hk' htch
+  · intro i s k0 hh hf hs hns' m k' hk' htch
     rcases touched_send htch with h | ⟨hin, h⟩
-    · exact (hI.blind i s k0 hh hf hs hns).2 m k' hk' h
-    · have hsh := (mem_peerKeysIn.mp (touched_postBatch.mp h).2).2.2.1
+    · exact (hI.blind i s k0 hh hf hs hns').2 m k' hk' h
+    · have hsh := ((mem_freshKeysIn hns).mp (touched_postBatch.mp h).2).2.2.1
       have : i = me := hI.excl i me _ hh (by rw [← hk', hsh]; exact hheld)
-      subst this; exact hns hin
+      subst this; exact hns' hin
   · intro s hs m k' hpre
     -- the table afterwards, per map
-    have hrib : ∀ m, ribVr m (fun key => if key.peer = me ∧ key.shard = k then
-          (st.rib key).map fun e => { e with post := applyImport (st.threads me).pol e.pre } else st.rib key) k'
-        = if m = true ∧ k'.peer = me ∧ k'.shard = k then np k' else ribV m st k' := by
+    have hrib : ∀ m, ribVr m (fun key => if key.peer = p ∧ key.shard = k then
+          (st.rib key).map fun e => if isStale st p e = true then e else
+            { e with post := applyImport (st.threads me).pol e.pre } else st.rib key) k'
+        = if m = true ∧ k'.peer = p ∧ k'.shard = k then np k' else ribV m st k' := by
       intro m
       rw [ribV_eq]
-      by_cases hc : k'.peer = me ∧ k'.shard = k
-      · cases m <;> cases h : st.rib k' <;> simp [ribVr, hc, h, np, pol]
+      by_cases hc : k'.peer = p ∧ k'.shard = k
+      · cases m <;> cases h : st.rib k' <;> simp [ribVr, hc, h, np, pol, isStale_false hns]
       · cases m <;> simp [ribVr, hc]
     rw [hrib]
     by_cases hin : s ∈ (st.threads me).subs
     · rw [send_in hin] at hpre ⊢
-      by_cases hmem : m = true ∧ k' ∈ peerKeysIn st me k
+      by_cases hmem : m = true ∧ k' ∈ freshKeysIn st p k
       · -- re-announced key
         obtain ⟨hm, hk⟩ := hmem
-        have hk2 := mem_peerKeysIn.mp hk
+        have hk2 := (mem_freshKeysIn hns).mp hk
         left
         rw [view_append, foldl_batch_hit m k' (np k') _ _ (postBatch_no_down _ _) postBatch_val
           (touched_postBatch.mpr ⟨hm, hk⟩)]
         simp [hm, hk2.2.1, hk2.2.2.1]
-      · have hnt : ¬ touched m k' (postBatch (peerKeysIn st me k) np) := fun h => hmem (touched_postBatch.mp h)
+      · have hnt : ¬ touched m k' (postBatch (freshKeysIn st p k) np) := fun h => hmem (touched_postBatch.mp h)
         rw [view_append, foldl_untouched m k' _ _ hnt (fun e he p hp => absurd hp (postBatch_no_down _ _ e he p))]
         have hpre' : touched m k' (st.queues s) ∨ k'.shard ∈ st.done s := by
           rcases hpre with h | h
           · rw [touched_append] at h; exact h.elim Or.inl (fun h => absurd h hnt)
           · exact Or.inr h
         have hv := hI.viewI s hs m k' hpre'
-        by_cases hc : m = true ∧ k'.peer = me ∧ k'.shard = k
+        by_cases hc : m = true ∧ k'.peer = p ∧ k'.shard = k
         · -- a key of this peer and shard that is not in the table
           have hnone : st.rib k' = none := by
             cases h : st.rib k' with
             | none => rfl
             | some e =>
-              exact absurd ⟨hc.1, mem_peerKeysIn.mpr ⟨(hI.sup k' e h).1, hc.2.1, hc.2.2, by simp [h]⟩⟩ hmem
+              exact absurd ⟨hc.1, (mem_freshKeysIn hns).mpr ⟨(hI.sup k' e h).1, hc.2.1, hc.2.2, by simp [h]⟩⟩ hmem
           rw [if_pos hc]
           have : np k' = ribV m st k' := by simp [np, hnone, ribV, postOf, preOf]
           rw [this]; exact hv
         · rw [if_neg hc]; exact hv
     · rw [send_out hin] at hpre ⊢
       have hb := hI.blind me s _ hheld hfresh hs hin
-      by_cases hc : m = true ∧ k'.peer = me ∧ k'.shard = k
+      by_cases hc : m = true ∧ k'.peer = p ∧ k'.shard = k
       · rcases hpre with h | h
         · exact absurd h (hb.2 m _ hc.2.2)
         · exact absurd (hc.2.2 ▸ h) hb.1
@@ -686,15 +724,11 @@ theorem step_yld {st st' : St} {me y rest} (hI : Inv st)
   unfold TWF at hw; rw [hp] at hw
   have hrest : wfp st.n me rest (st.threads me).held (st.threads me).fresh (st.threads me).drop
       ((st.threads me).snapping.map (·.2)) = true := by
-    cases y <;> simp only [wfp, Bool.and_eq_true] at hw
-    · exact hw
-    · exact hw
-    · exact hw.2
-    · exact hw
+    cases y <;> simp only [wfp, Bool.and_eq_true] at hw <;> first | exact hw | exact hw.2
   simp only [step, hp] at hs
   injection hs with hs; subst hs
   cases y <;>
-    exact inv_core (p := st.policy) hI hme rfl rfl rfl (by unfold TWF; simpa using hrest)
+    exact inv_core (p := st.policy) (E := st.established) hI hme rfl rfl rfl (by unfold TWF; simpa using hrest)
       (keepCore hI).1 (hI.idsT me) (keepCore hI).2
 
 theorem step_loadPol {st st' : St} {me rest} (hI : Inv st)
@@ -705,7 +739,7 @@ theorem step_loadPol {st st' : St} {me rest} (hI : Inv st)
   simp only [wfp] at hw
   simp only [step, hp] at hs
   injection hs with hs; subst hs
-  exact inv_core (p := st.policy) hI hme rfl rfl rfl (by unfold TWF; simpa using hw)
+  exact inv_core (p := st.policy) (E := st.established) hI hme rfl rfl rfl (by unfold TWF; simpa using hw)
     (keepCore hI).1 (hI.idsT me) (keepCore hI).2
 
 theorem step_setPol {st st' : St} {me p rest} (hI : Inv st)
@@ -716,7 +750,18 @@ theorem step_setPol {st st' : St} {me p rest} (hI : Inv st)
   simp only [wfp] at hw
   simp only [step, hp] at hs
   injection hs with hs; subst hs
-  exact inv_core (p := p) hI hme rfl rfl rfl (by unfold TWF; simpa using hw)
+  exact inv_core (p := p) (E := st.established) hI hme rfl rfl rfl (by unfold TWF; simpa using hw)
+    (keepCore hI).1 (hI.idsT me) (keepCore hI).2
+
+theorem step_setEst {st st' : St} {me b rest} (hI : Inv st)
+    (hp : (st.threads me).pgm = .setEst b :: rest) (hs : step me st = some st') : Inv st' := by
+  have hme := me_lt hI hp
+  have hw := hI.wf me
+  unfold TWF at hw; rw [hp] at hw
+  simp only [wfp] at hw
+  simp only [step, hp] at hs
+  injection hs with hs; subst hs
+  exact inv_core (p := st.policy) hI hme rfl rfl rfl (by unfold TWF; simpa using hw)
     (keepCore hI).1 (hI.idsT me) (keepCore hI).2
 
 theorem step_ret {st st' : St} {me rest} (hI : Inv st)
@@ -727,7 +772,7 @@ theorem step_ret {st st' : St} {me rest} (hI : Inv st)
   simp only [wfp] at hw
   simp only [step, hp] at hs
   injection hs with hs; subst hs
-  exact inv_core (p := st.policy) hI hme rfl rfl rfl (by unfold TWF; simpa using hw)
+  exact inv_core (p := st.policy) (E := st.established) hI hme rfl rfl rfl (by unfold TWF; simpa using hw)
     (keepCore hI).1 (hI.idsT me) (keepCore hI).2
 
 theorem step_acquire {st st' : St} {me k rest} (hI : Inv st)
@@ -741,7 +786,7 @@ theorem step_acquire {st st' : St} {me k rest} (hI : Inv st)
   split at hs
   · rename_i hfree
     injection hs with hs; subst hs
-    refine inv_core (p := st.policy) hI hme rfl rfl rfl (by unfold TWF; simpa using hrest) ?_ (hI.idsT me) ?_
+    refine inv_core (p := st.policy) (E := st.established) hI hme rfl rfl rfl (by unfold TWF; simpa using hrest) ?_ (hI.idsT me) ?_
     · intro k' hk'
       simp at hk'; subst hk'
       exact ⟨hk, lockFree_spec hI hfree⟩
@@ -757,7 +802,7 @@ theorem step_release {st st' : St} {me k rest} (hI : Inv st)
   obtain ⟨_, hrest⟩ := hw
   simp only [step, hp] at hs
   injection hs with hs; subst hs
-  refine inv_core (p := st.policy) hI hme rfl rfl rfl (by unfold TWF; simpa using hrest) ?_ (hI.idsT me) ?_
+  refine inv_core (p := st.policy) (E := st.established) hI hme rfl rfl rfl (by unfold TWF; simpa using hrest) ?_ (hI.idsT me) ?_
   · intro k' hk'; simp at hk'
   · intro s k' hk'; simp at hk'
 
@@ -769,7 +814,7 @@ theorem step_loadSubs {st st' : St} {me rest} (hI : Inv st)
   simp only [wfp] at hw
   simp only [step, hp] at hs
   injection hs with hs; subst hs
-  refine inv_core (p := st.policy) hI hme rfl rfl rfl (by unfold TWF; simpa using hw)
+  refine inv_core (p := st.policy) (E := st.established) hI hme rfl rfl rfl (by unfold TWF; simpa using hw)
     (keepCore hI).1 (fun s hs => hI.idsS s hs) ?_
   intro s k _ _ hs hns
   exact absurd hs hns
@@ -801,7 +846,7 @@ theorem step_sendUp {st st' : St} {me rest} (hI : Inv st)
     · rw [send_in hin, view_append, foldl_untouched m key _ _ (hnt m key) (by simp)]
     · rw [send_out hin]
   refine inv_data hI st.rib st.keys _ hme rfl rfl rfl rfl rfl rfl
-    (by unfold TWF; simpa using hrest) hI.sup ?_ ?_ hI.dropped ?_ ?_
+    (by unfold TWF; simpa using hrest) (fun s e h => send_mono h) hI.sup ?_ ?_ hI.dropped ?_ ?_
   · intro s hs
     have : s ∉ st.subscribers := fun h => Nat.lt_irrefl _ (Nat.lt_of_lt_of_le (hI.idsS s h) hs)
     rw [send_out this]; exact (hI.idsQ s hs).1
@@ -873,6 +918,8 @@ theorem step_commitDrop {st st' : St} {me k rest} (hI : Inv st)
     · subst h; simp at hr ⊢; exact hI.recs i r hr hw
     · simp [updT_ne _ _ h] at hr ⊢; exact hI.recs i r hr hw
   · exact hI.tshard
+  · exact hI.nostale
+  · exact hI.eosI
   · intro key ⟨l, hl, hk⟩
     by_cases h : key.peer = me
     · rw [h] at hl; simp at hl; subst hl
@@ -946,12 +993,15 @@ theorem step_sendDown {st st' : St} {me rest} (hI : Inv st)
     · subst h; unfold TWF; simpa using hrest
     · simpa [updT_ne _ _ h] using hI.wf i
   · intro i j k' hi hj
-    have e : ∀ i, (updT st.threads me { (st.threads me) with pgm := rest, drop := none, count := 0 } i).held
-        = (st.threads i).held := by
-      intro i; by_cases h : i = me
-      · subst h; simp
-      · simp [updT_ne _ _ h]
-    rw [e] at hi hj; exact hI.excl i j k' hi hj
+    have hi' : (st.threads i).held = some k' := by
+      by_cases h : i = me
+      · subst h; simpa using hi
+      · simpa [updT_ne _ _ h] using hi
+    have hj' : (st.threads j).held = some k' := by
+      by_cases h : j = me
+      · subst h; simpa using hj
+      · simpa [updT_ne _ _ h] using hj
+    exact hI.excl i j k' hi' hj'
   · intro i k' hi
     by_cases h : i = me
     · subst h; simp at hi; exact hI.heldlt i k' hi
@@ -979,6 +1029,8 @@ theorem step_sendDown {st st' : St} {me rest} (hI : Inv st)
     · subst h; simp at hr ⊢; exact hI.recs i r hr hw
     · simp [updT_ne _ _ h] at hr ⊢; exact hI.recs i r hr hw
   · intro s m key h; exact hI.tshard s m key ((hq s m key).mp h)
+  · exact hI.nostale
+  · intro s hs; exact send_mono (hI.eosI s hs)
   · intro key ⟨l, hl, hk⟩
     by_cases h : key.peer = me
     · rw [h] at hl; simp at hl
@@ -1006,8 +1058,8 @@ theorem step_sendDown {st st' : St} {me rest} (hI : Inv st)
       · left; exact hv
       · right; exact ⟨l, by simp [updT_ne _ _ h]; exact hl, hk⟩
 
-theorem step_register {st st' : St} {me w rest} (hI : Inv st)
-    (hp : (st.threads me).pgm = .register w :: rest) (hs : step me st = some st') : Inv st' := by
+theorem step_register {st st' : St} {me w b rest} (hI : Inv st)
+    (hp : (st.threads me).pgm = .register w b :: rest) (hs : step me st = some st') : Inv st' := by
   have hme := me_lt hI hp
   have hw := hI.wf me
   unfold TWF at hw; rw [hp] at hw
@@ -1075,6 +1127,8 @@ theorem step_register {st st' : St} {me w rest} (hI : Inv st)
       · subst hr; simp at hwant; subst hwant; right; simp
     · simp [updT_ne _ _ h] at hr ⊢; exact hI.recs i r hr hwant
   · exact hI.tshard
+  · exact hI.nostale
+  · exact hI.eosI
   · intro key ⟨l, hl, hk⟩
     by_cases h : key.peer = me
     · rw [h] at hl; simp at hl; rw [hdrop] at hl; cases hl
@@ -1105,6 +1159,18 @@ theorem step_register {st st' : St} {me w rest} (hI : Inv st)
       rcases hpre with h | h
       · exact absurd h (touched_nil m key)
       · simp at h
+
+theorem mem_setLast {l : List SubRec} {f : SubRec → SubRec} {r : SubRec} (h : r ∈ setLast l f) :
+    ∃ r0 ∈ l, r = r0 ∨ r = f r0 := by
+  unfold setLast at h
+  cases hl : l.reverse with
+  | nil => simp [hl] at h
+  | cons x rest =>
+    simp only [hl, List.mem_reverse, List.mem_cons] at h
+    have hx : x ∈ l := List.mem_reverse.mp (by rw [hl]; simp)
+    rcases h with h | h
+    · exact ⟨x, hx, Or.inr h⟩
+    · exact ⟨r, List.mem_reverse.mp (by rw [hl]; simp [h]), Or.inl rfl⟩
 
 theorem step_sentinel {st st' : St} {me rest} (hI : Inv st)
     (hp : (st.threads me).pgm = .sentinel :: rest) (hs : step me st = some st') : Inv st' := by
@@ -1183,15 +1249,25 @@ theorem step_sentinel {st st' : St} {me rest} (hI : Inv st)
       · exact hI.comp s hs k hk
     · intro i r hr hwant
       by_cases h : i = me
-      · subst h; simp at hr ⊢
-        rcases hI.recs i r hr hwant with hc | ⟨l, hl⟩
-        · exact Or.inr hc
-        · rw [hsn] at hl; simp at hl; exact Or.inl hl.1.symm
+      · subst h; simp only [updT_self] at hr ⊢
+        obtain ⟨r0, hr0, hrr⟩ := mem_setLast hr
+        have hsw : r.sid = r0.sid ∧ r.want = r0.want := by
+          rcases hrr with rfl | rfl <;> exact ⟨rfl, rfl⟩
+        left
+        rcases hI.recs i r0 hr0 (hsw.2 ▸ hwant) with hc | ⟨l, hl⟩
+        · rw [hsw.1]; exact List.mem_cons_of_mem _ hc
+        · rw [hsn] at hl; simp at hl; rw [hsw.1, ← hl.1]; exact List.mem_cons_self
       · simp [updT_ne _ _ h] at hr ⊢
         rcases hI.recs i r hr hwant with hc | hl
         · exact Or.inl (Or.inr hc)
         · exact Or.inr hl
     · intro s m key h; exact hI.tshard s m key ((hq s m key).mp h)
+    · exact hI.nostale
+    · intro s hs
+      simp at hs
+      rcases hs with hs | hs
+      · subst hs; rw [send_in (by simp)]; simp
+      · exact send_mono (hI.eosI s hs)
     · intro key ⟨l, hl, hk⟩
       by_cases h : key.peer = me
       · rw [h] at hl; simp at hl; exact hI.dropped key ⟨l, h ▸ hl, hk⟩
@@ -1392,6 +1468,8 @@ theorem step_snap {st st' : St} {me k rest} (hI : Inv st)
         · exact hI.tshard s m key h
         · rw [touched_snap h]; exact hI.heldlt me k hheld
       · rw [hq s hs'] at h; exact hI.tshard s m key h
+    · exact hI.nostale
+    · intro s hs; exact send_mono (hI.eosI s hs)
     · intro key ⟨l, hl, hk⟩
       by_cases h : key.peer = me
       · rw [h] at hl; simp at hl; exact hI.dropped key ⟨l, h ▸ hl, hk⟩
@@ -1493,7 +1571,7 @@ theorem step_unsubscribe {st st' : St} {me rest} (hI : Inv st)
   | none =>
     simp only [hm] at hs
     injection hs with hs; subst hs
-    exact inv_core (p := st.policy) hI hme rfl rfl rfl (by unfold TWF; simpa [hsnap'] using hrest)
+    exact inv_core (p := st.policy) (E := st.established) hI hme rfl rfl rfl (by unfold TWF; simpa [hsnap'] using hrest)
       (keepCore hI).1 (hI.idsT me) (keepCore hI).2
   | some p =>
     obtain ⟨s0, ms⟩ := p
@@ -1548,6 +1626,8 @@ theorem step_unsubscribe {st st' : St} {me rest} (hI : Inv st)
         · rw [hsnap'] at hl; cases hl
       · simp [updT_ne _ _ h] at hr ⊢; exact hI.recs i r hr hwant
     · exact hI.tshard
+    · exact hI.nostale
+    · exact hI.eosI
     · intro key ⟨l, hl, hk⟩
       by_cases h : key.peer = me
       · rw [h] at hl; simp at hl; exact hI.dropped key ⟨l, h ▸ hl, hk⟩
@@ -1578,12 +1658,19 @@ theorem step_inv {st st' : St} {me : Nat} (hI : Inv st) (hs : step me st = some 
     | loadSubs => exact step_loadSubs hI hp hs
     | commitIns key a => exact step_commitIns hI hp hs
     | commitRem key => exact step_commitRem hI hp hs
-    | commitSr k => exact step_commitSr hI hp hs
+    | commitSr k p => exact step_commitSr hI hp hs
+    | setEst b => exact step_setEst hI hp hs
+    | commitStale k => exact absurd (hI.wf me) (by unfold TWF; rw [hp]; simp [wfp])
+    | commitDropQuiet k => exact absurd (hI.wf me) (by unfold TWF; rw [hp]; simp [wfp])
+    | commitPurge k => exact absurd (hI.wf me) (by unfold TWF; rw [hp]; simp [wfp])
+    | commitLlgr k => exact absurd (hI.wf me) (by unfold TWF; rw [hp]; simp [wfp])
+    | commitLpurge k => exact absurd (hI.wf me) (by unfold TWF; rw [hp]; simp [wfp])
+    | sendDownGr => exact absurd (hI.wf me) (by unfold TWF; rw [hp]; simp [wfp])
     | commitDrop k => exact step_commitDrop hI hp hs
     | sendUp => exact step_sendUp hI hp hs
     | sendDown => exact step_sendDown hI hp hs
     | setPol p => exact step_setPol hI hp hs
-    | register w => exact step_register hI hp hs
+    | register w b => exact step_register hI hp hs
     | snap k => exact step_snap hI hp hs
     | sentinel => exact step_sentinel hI hp hs
     | unsubscribe => exact step_unsubscribe hI hp hs
